@@ -367,9 +367,10 @@ READS = {
 }
 
 
-def text_as_read(ctx, crates):
+def text_as_read(ctx, crates, sinks=None, floor=True):
     rule = "R-C10-text-as-read"
     n_sites = 0
+    TEXT_SINKS_ = sinks or TEXT_SINKS
     for cr, kind in crates:
         for k, f in sorted(cr.fns.items()):
             if "_tests::" in k or k.startswith("tests::") or "::tests::" in k or f.get("file", "").endswith("_tests.rs"):
@@ -377,10 +378,10 @@ def text_as_read(ctx, crates):
             ordinal = {}
             for bi, t in M.iter_calls(f):
                 p = M.norm_path(t["fn"].get("path", ""))
-                sink = next((s for s in TEXT_SINKS if p.endswith(s)), None)
+                sink = next((s for s in TEXT_SINKS_ if p.endswith(s)), None)
                 if sink is None:
                     continue
-                idx = TEXT_SINKS[sink]
+                idx = TEXT_SINKS_[sink]
                 if idx >= len(t["args"]):
                     continue
                 n = ordinal.get(sink, 0)
@@ -398,14 +399,14 @@ def text_as_read(ctx, crates):
                     decl = M.norm_path(c["fn"].get("decl", ""))
                     if cp in COPIES or cp in READS or decl in READS or decl in COPIES:
                         continue
-                    if any(cp.endswith(s) for s in TEXT_SINKS):
+                    if any(cp.endswith(s) for s in TEXT_SINKS_):
                         continue
                     bad.append("%s (l.%s)" % (cp, c.get("ln")))
                 n_sites += 1
                 ctx.ob(rule, key, not bad, ("the text given to %s passes through %s, which is not a copy of what was read: positions/values would be those of a rewritten text" % (sink.split("::")[-1], "; ".join(sorted(set(bad))[:3]))) if bad
                        else "%d calls on the slice, all copies or the read itself" % len(calls), fn=f, line=t.get("ln", 0),
                        sample={"site": k, "sink": sink, "calls": sorted(set(M.norm_path(c["fn"].get("path", "")).split("::")[-1] for c in calls))} if sink.endswith("Loader::load") else None)
-    if n_sites < 14 * len(crates):
+    if floor and n_sites < 14 * len(crates):
         ctx.lost(rule, rule + ":floor", "only %d parser call sites found (floor %d: 14 per crate copy)" % (n_sites, 14 * len(crates)))
 
 
@@ -415,6 +416,7 @@ def run(ctx):
     primitives(ctx, cr)
     unresolved_point(ctx, cr)
     text_as_read(ctx, [(ctx.lib, "lib")] if ctx.lib is ctx.bin else [(ctx.lib, "lib"), (ctx.bin, "bin")])
+    ctx.positive_control("R-C10-text-as-read", "rewritten-text", lambda sub, fx: text_as_read(sub, [(fx, "fixture")], sinks={"sink": 0}, floor=False), ["rewritten", "replace"])
     ctx.assumptions += [
         "libyaml reports the mark at which a scalar starts (dependency)",
         "that a reported pointer resolves in the document to the reported value, remaining_query text and unresolved traversal points are run-time facts and not claimed",
